@@ -11,11 +11,13 @@ except FileNotFoundError:
     pass
 
 props = [json.loads(l) for l in open(os.path.join(V, "properties.jsonl"))]
+# only properties the coordinator has reviewed and accepted are claimed (one id per line)
+CLAIMED = set(open(os.path.join(V, "tools", "claimed.txt")).read().split())
 checks, na, engines = [], [], {}
 for p in props:
     pid = p["id"]
     path = os.path.join(V, "props", pid + ".py")
-    if not os.path.exists(path):
+    if pid not in CLAIMED or not os.path.exists(path):
         na.append({"property_id": pid, "reason": NOT_BUILT.get(pid, "not claimed: model, theorems and correspondence for this property are not built yet (see DESIGN.md section 7 for the planned design); no other technique is substituted")})
         continue
     spec = importlib.import_module("props." + pid)
